@@ -136,6 +136,15 @@ Theorem C13_json_parse_max_depth_safe :
     end.
 Proof. exact parse_max_depth_safe. Qed.
 
+(* allocation (C03): `parse_cost` (Json.v) follows the control flow of the parser and charges an upper bound at every
+   allocation site of parser.rs (with_capacity(256/16/16), amortised growth of the strings and vectors, the temporary hex
+   string, the key copy); for EVERY input it is at most 1024 bytes per character supplied (a character is >= 1 byte).
+   The check compares the meter with the bytes really requested from the allocator (counting GlobalAlloc in the harness). *)
+Theorem C13_json_parse_alloc_linear :
+  forall (F : Type) (fparse : str -> option F) (maxd : N) (s : str),
+    parse_cost F fparse false maxd s <= 1024 * slen s.
+Proof. exact parse_cost_linear. Qed.
+
 (* --- the tree before the fixes violated soundness three ways (models of the old code; witnesses reproduced on the real
        code): F23 {"a":1 "b":2}, F22 +1 / NaN / 01 / .5 / 1. , F25 "\u+123" --- *)
 Theorem C13_legacy_missing_comma_refuted :
@@ -229,6 +238,7 @@ Print Assumptions C13_roundtrip.
 Print Assumptions C13_roundtrip_pretty.
 Print Assumptions C13_json_parse_safe.
 Print Assumptions C13_json_parse_max_depth_safe.
+Print Assumptions C13_json_parse_alloc_linear.
 Print Assumptions C13_legacy_missing_comma_refuted.
 Print Assumptions C13_legacy_number_grammar_refuted.
 Print Assumptions C13_legacy_hex_sign_refuted.
